@@ -10,7 +10,10 @@ bool sameVal(const Val& a, const Val& b)
     if (a.t == VINF || b.t == VINF) return a.t == b.t;
     if (a.t == VI && b.t == VI) return a.i == b.i;
     double x = a.num(), y = b.num();
-    double tol = 1e-5 + 1e-5 * std::fabs(y);
+    double mag = std::fabs(y);
+    if (a.s > mag) mag = a.s;
+    if (b.s > mag) mag = b.s;
+    double tol = 1e-5 + 1e-5 * mag;
     return std::fabs(x - y) <= tol;
 }
 
